@@ -48,6 +48,11 @@ def _method_role(fn: ast.FunctionDef) -> str | None:
         return "clear"
     if "append" in calls and any(isinstance(n, ast.Return) and n.value is not None for n in ast.walk(fn)) and len(fn.args.args) == 3:
         return "note"
+    returns_value = any(isinstance(n, ast.Return) and n.value is not None for n in ast.walk(fn))
+    if "append" in calls and not returns_value and len(fn.args.args) == 2:
+        return "record"  # AdaptiveStrategy: one outcome appended to the window
+    if returns_value and not fn.args.args[1:] and "append" not in calls and any(isinstance(n, ast.With) for n in ast.walk(fn)) and any(isinstance(n, ast.BinOp) and isinstance(n.op, ast.Div) for n in ast.walk(fn)):
+        return "ratio"  # AdaptiveStrategy: the multiplier computed from the failure ratio under the lock
     return None
 
 
@@ -70,10 +75,12 @@ FIELD_ROLES = {
         "_events": lambda v: _is_call(v, "deque", "collections.deque"),
         "_lock": lambda v: _is_call(v, "threading.Lock", "Lock"),
     },
+    "redress.strategies:AdaptiveStrategy": {},  # a dataclass: its private helper methods are renamed back by role
 }
 METHOD_ROLES = {
     "redress.circuit:CircuitBreaker": {"_note_failure": "note", "_prune": "prune", "_clear_failures": "clear"},
     "redress.budget:Budget": {"_prune": "prune"},
+    "redress.strategies:AdaptiveStrategy": {"_multiplier": "ratio", "_prune": "prune", "_record": "record"},
 }
 
 
